@@ -615,6 +615,7 @@ def code_hook(c):
 
 def r01_9(run):
     """per-line callback only for lines of a 2xx reply: lines of a 5xx reply belong to the error text."""
+    RID = 'R01.9'
     ci = proto(run)
     reps = [c for c in code_reps(run) if code_class(c) in ('5xx', 'other') and c is not None and c >= 300]
     sites = 0
@@ -633,6 +634,11 @@ def r01_9(run):
                         bad.setdefault(id(a), (a, c, p))
         for call in cbcalls:
             hit = bad.get(id(call))
+            if hit is not None and any(n.kind == 'test' and isinstance(n.ast, ast.Call) and (dotted(n.ast.func) or '').startswith('self.')
+                                       for n, _ in hit[2].steps):
+                run.ob(RID, u, call, 'reachability decided', None, message='the path to the per-line callback depends on %s, which the checker cannot see through' %
+                       [src(n.ast) for n, _ in hit[2].steps if n.kind == 'test' and isinstance(n.ast, ast.Call)][:2])
+                continue
             run.ob('R01.9', u, call, 'per-line callback unreachable while the current reply is not 2xx', hit is None,
                    slot='linecb-non2xx@%s' % u.short,
                    message='%s hands a line of a %s reply to the per-line callback: a 5xx reply then fails with '
